@@ -262,7 +262,16 @@ def gen_conv(tmp):
 FNUNITS = [
     ("Hchunks", "hdf/src/hchunks.c",
      ["update_chunk_indices_seek", "compute_chunk_to_array", "compute_array_to_seek", "calculate_seek_in_chunk",
-      "update_seek_pos_chunk", "calculate_chunk_num", "calculate_chunk_for_chunk"], {}),
+      "update_seek_pos_chunk", "calculate_chunk_num", "calculate_chunk_for_chunk"], {"inline_body": True}),
+    # C03: the maximal-contiguous-run decision of NCvario (pointer cursors over shape / edges / origin, unsigned comparisons)
+    ("Putget", "mfhdf/src/putget.c", ["NCvcmaxcontig"], {"ignore_calls": ["NCadvise", "H4_NCadvise"], "cflags": ["-DHDF"]}),
+    # C05: the splay step of the skipping-Huffman coder (array-form tree; the rows left/right/up[skip_pos] are the regions)
+    ("Cskphuff", "hdf/src/cskphuff.c", ["HCIcskphuff_splay"], {}),
+    # C06: the byte-swapping and native copy loops; s and d are addresses into ONE flat memory so that in-place use is faithful
+    ("Dfkswap", "hdf/src/dfkswap.c", ["DFKsb2b", "DFKsb4b", "DFKsb8b"], {"flat": ["s", "d"], "ignore_calls": ["HEclear", "HEPclear", "HEpush"]}),
+    ("Dfknat", "hdf/src/dfknat.c", ["DFKnb1b", "DFKnb2b", "DFKnb4b", "DFKnb8b"], {"flat": ["s", "d"], "ignore_calls": ["HEclear", "HEPclear", "HEpush"]}),
+    # C15: the run-length coder of the DFR8 interface (pointer cursors with post-increments, pointer differences; static carry-over buffer)
+    ("Dfrle", "hdf/src/dfrle.c", ["DFCIrle", "DFCIunrle"], {}),
 ]
 
 
